@@ -5,7 +5,7 @@ CONSTANTS
   MetaKeys = {"d", "l"}
   Values = {"x", "y"}
   AtomicSave = TRUE
-  CommitOnError = FALSE
+  CommitOnError = TRUE
   DropStaleIndex = TRUE
 INVARIANTS HashLookupExact SavedRetrievable
 PROPERTIES HeightOnlyGrows
